@@ -1,4 +1,4 @@
-"""Fake GROMACS: `gmx grompp …`, `gmx mdrun -s X.tpr -deffnm NAME -c NAME.g96`, `gmx energy -f NAME.edr`.
+"""Fake GROMACS: `gmx launch mdrun …` (launcher that runs mdrun as its child), `gmx grompp …`, `gmx mdrun -s X.tpr -deffnm NAME -c NAME.g96`, `gmx energy -f NAME.edr`.
 
 grompp and energy are one-shot stubs (a .tpr/mdout.mdp, an energy.xvg with the two terms the engine asks for
 on stdin).  mdrun is driven tick by tick through the FIFO handshake like the other fake programs: `C` creates
@@ -38,6 +38,18 @@ if sub == "energy":
         for k in range(max(n, 1)):
             fh.write(f"{k * 0.5:12.6f}  0.000000  0.000000\n")
     sys.exit(0 if terms else 1)
+if sub == "launch":
+    # launcher-style worker command (srun / mpiexec / wrapper script): the real program is a CHILD of the process
+    # the engine started, in the same session / process group (the engine's preexec_fn=os.setsid made us its leader)
+    import signal
+    import subprocess
+    child = subprocess.Popen([sys.executable, "-S", "-E", os.path.abspath(__file__)] + args[1:],
+                             env=dict(os.environ, FAKE_MD_LAUNCHED="1"))
+    rc = child.wait()
+    if rc < 0:
+        signal.signal(-rc, signal.SIG_DFL) if -rc != signal.SIGKILL else None
+        os.kill(os.getpid(), -rc)
+    sys.exit(rc)
 if sub == "mdrun":
     name = opt("-deffnm")
     tpr = opt("-s")
